@@ -32,14 +32,14 @@ def run(tier):
              "an input vertex's pixel; end points and mid point of every output edge within half a pixel (Chebyshev, exact closed-box test) "
              "of the input boundary; every pixel centre and corner of the window +-2 pixels farther than one pixel from the input boundary "
              "is covered by the output iff covered by the input",
-        min_valid_frac=0.15, classify=classify)
+        min_valid_frac=0.15, classify=classify, codesnap=True)
 
 
 def classify(inv, rec, grp):
     known = {f["id"]: f for f in vlib.known_for(PROP)}
     if "F13" in known and inv == "C04_Coverage" and "step" not in rec:
         lv = snapcheck.f13_key_matches(rec)
-        if lv:
+        if lv and snapcheck.codesnap_agrees(rec):     # ... and the code still returns what the pinned code returned for this input
             return ("F13", known["F13"]["what"])
     return None
 
